@@ -135,3 +135,5 @@ PLANS = {
         ],
     },
 }
+# C03's on-the-wire part is added to the EX-C plan by plans.py (see there)
+WIRE_JOB = job('wire', 'wire', 'C03', {'quick': 5, 'thorough': 7}, 1, wit=['c03_wire_tcp_frame_checked', 'c03_wire_udp_frame_checked', 'c03_wire_compression_used'])
